@@ -52,6 +52,19 @@ class SimInterrupt(KeyboardInterrupt):
     """Ctrl-C delivered inside the caller's progress handler (fault kind F1, BaseException)."""
 
 
+class SimExit(SystemExit):
+    """sys.exit() inside the caller's progress handler or a signal handler running there
+    (fault kind F1; survives in hosts that catch SystemExit: GUI loops, notebooks, pytest)."""
+
+
+class SimCancel(BaseException):
+    """Task cancellation delivered inside the caller's progress handler (fault kind F1): like
+    asyncio.CancelledError neither an Exception nor a KeyboardInterrupt."""
+
+
+SIM_RAISED = (SimFault, SimInterrupt, SimExit, SimCancel)
+
+
 class SimBudget(BaseException):
     """Deterministic hang detection: statement budget of one API call exhausted."""
 
@@ -111,6 +124,7 @@ class World:
         self.dot_dirs = self.rng_spell.random() < 0.3      # input files below a dot-directory
         self.debug_logging = self.rng_spell.random() < 0.25
         self.typed_scores = self.rng_spell.random() < 0.5   # callers of the in-memory route
+        self.strict_warnings = self.rng_spell.random() < 0.3
         self.node('primary')
         self.use('primary')
         self.install()
@@ -323,6 +337,10 @@ class World:
             f.cb_at = None
             if f.cb_exc == 'interrupt':
                 raise SimInterrupt('simulated Ctrl-C in progress handler (%s)' % kind)
+            if f.cb_exc == 'exit':
+                raise SimExit('simulated sys.exit() in progress handler (%s)' % kind)
+            if f.cb_exc == 'cancel':
+                raise SimCancel('simulated task cancellation in progress handler (%s)' % kind)
             raise SimFault('simulated progress-handler failure (%s)' % kind)
 
     def on_stmt(self, kind, sql, nrows):
